@@ -106,7 +106,7 @@ def skipVerdict (impl : String) (t : UInt8) (b : Bytes) (src : SrcKind) (res : S
         pure (bs.length, some bs, some pos)
       | _, _ => none
     match parsed with
-    | none => "bad:protocol"
+    | none => if (rest.headD "").startsWith "-" then "bad:C03:negative-length,C08:extent" else "bad:protocol"
     | some (n, bytes?, consumed?) =>
       if n > b.length then "bad:C03:overreport,C08:extent"
       else if r65 != some n then
